@@ -3,8 +3,10 @@
    stdin lines (same as harness/src/bin/c09.rs):
      run <streamhex> <n0.n1...> <events>      events: w<len> | w<len>f<i> | g | t | r
         -> one token per client op: M<serial>;<bodyhex>~<fd labels> | T | K | E<kind> ;
-           a token is prefixed with ! when a `t` op met a non-empty kernel queue (the caller then
-           turns that op into `g` before giving the schedule to the implementation)
+           g t r as in the harness; T = get_next_message(Duration 5 s), i = Infinite.
+           a token is prefixed with ^ when a `t` (1 ms) op finds a whole message that still has to be read from
+           the socket (the caller turns it into `T`), and with ! when a `T`/`i` op does not find a whole message
+           (the caller turns it into `g`): outcomes must not depend on timing
      kprobe <hex:nfds;...> <req.req...>       -> <bytes>:<nfds> | A  per request (Linux choice) *)
 open Gen_model
 
@@ -57,15 +59,22 @@ let run stream nfds events =
         pos := !pos + len;
         let fds = match fi with Some i -> fds_of_msg nfds i | None -> [] in
         q := kwrite !q bytes fds
-    | 'g' | 't' | 'r' ->
+    | 'g' | 't' | 'T' | 'i' | 'r' ->
         let fuel = nat_of_int (int_of_n (kavail !q) + 3) in
         let cs = linux_choices fuel !st !q in
-        let bang = if ev.[0] = 't' && !q <> [] then "!" else "" in
+        let nonempty = !q <> [] in
         let e = match ev.[0] with
-          | 'g' -> GetNext (Nonblock, cs) | 't' -> GetNext (Timed, cs) | _ -> ReadOnce (Nonblock, cs) in
+          | 'g' -> GetNext (Nonblock, cs) | 't' | 'T' | 'i' -> GetNext (Timed, cs) | _ -> ReadOnce (Nonblock, cs) in
         let ((st', q'), os) = step dec e !st !q in
         st := st'; q := q';
-        List.iter (fun o -> out := (bang ^ show_obs o) :: !out) os
+        let is_msg = List.exists (function OMsg _ -> true | _ -> false) os in
+        (* a short time-out may only run where the bytes for a whole message are NOT there (the result is a
+           time-out whatever the timing); a long one / Infinite only where they are (the result is the message) *)
+        let mark = match ev.[0] with
+          | 't' -> if is_msg && nonempty then "^" else ""
+          | 'T' | 'i' -> if is_msg then "" else "!"
+          | _ -> "" in
+        List.iter (fun o -> out := (mark ^ show_obs o) :: !out) os
     | _ -> out := "?" :: !out) events;
   if !out = [] then "-" else String.concat "," (List.rev !out)
 
